@@ -83,6 +83,11 @@ abbrev Block := List Stmt
 
 /-! ### observations on trees -/
 
+/-- `Expr::XcrementOp` -/
+def Operand.isDec : Operand → Bool
+  | .dec _ => true
+  | _ => false
+
 def Operand.refs : Operand → List Nat
   | .timeof l => [l]
   | .offsetof l => [l]
@@ -282,6 +287,8 @@ def gatherGo (ss : Block) (rc : Nat → Nat) : Nat → Nat → List CondBlockInf
         | .uncond => none
         | .cond _ (.val _) => none
         | .cond kw (.bin op a b) =>
+          -- `as_binop_cond`: a counting jump (`--x > 0`) never becomes the condition of an `if` block
+          if a.isDec || b.isDec then none else
           match op.negate with
           | none => none
           | some nop =>
